@@ -38,3 +38,4 @@ def fill_part(ctx, tier):
     for pe, we, sp in combos:
         ctx.replay(g, NDAdapter(POS[pe], WTS[we], spelling=sp), FILL_VIEW, label=f"ND:{pe}/{we}/sp{sp}",
                    edge_budget=60000 if tier == "quick" else 300000)
+    ctx.replay(g, NDAdapter(POS["neg"], WTS["int"], spelling=3), FILL_VIEW, label="ND:neg/int/sp3(<<)", edge_budget=25000 if tier == "quick" else 100000)
